@@ -200,6 +200,15 @@ struct cds_lfq_node_rcu *_cds_lfq_dequeue_rcu(struct cds_lfq_queue_rcu *q)
 			enqueue_dummy(q);
 			next = rcu_dereference(head->next);
 		}
+		/*
+		 * Never let the head move past the tail: if an enqueuer
+		 * linked its node after "head" but has not advanced the
+		 * tail yet, help it. Otherwise the dequeued node would stay
+		 * reachable through q->tail after its grace period.
+		 */
+		if (rcu_dereference(q->tail) == head)
+			(void) uatomic_cmpxchg_mo(&q->tail, head, next,
+						CMM_SEQ_CST, CMM_SEQ_CST);
 		if (uatomic_cmpxchg_mo(&q->head, head, next,
 					CMM_SEQ_CST, CMM_SEQ_CST) != head)
 			continue;	/* Concurrently pushed. */
